@@ -681,7 +681,18 @@ def install():
     pe.sleep = sim_sleep
     pe.time = lambda: S.now
     pe.kill_process_tree = sim_kill_tree
+    # memory-leak recycling of workers (psutil branch of _process_worker): off unless the scenario gives a leak plan
+    # (S.leak_after = k: a worker's memory has grown past the limit once it has run k tasks); the check delay is
+    # neutralised so that the check follows every task
     pe._USE_PSUTIL = False
+    pe._MEMORY_LEAK_CHECK_DELAY = -1.0
+
+    def sim_memory_usage(pid, force_gc=False):
+        S.step("mem.usage")
+        k = getattr(S, "leak_after", None)
+        n = getattr(S, "tasks_run", {}).get(my_proc(), 0)
+        return int(4e8) if (k and n >= k) else 0
+    pe._get_memory_usage = sim_memory_usage
 
     def sim_collect(*a):
         # garbage collection is an explicit environment step of the simulation (see harness); running the cyclic
